@@ -120,16 +120,24 @@ theorem body_stubs_pass_locals (c : Cfg) (t : Body) : (bodyFrame c t).useLocals 
 /-- `__M_locals` as the generated body maintains it equals the specified overlay (page arguments and the
 current values of the body's own `<% %>` assignments) at every node of the body function nest, provided no
 `<% %>` block nested in an anonymous block / call body of the body declares a name. -/
-theorem mlocals_current_partial (t : Body) (hg : mlGuard t = true) (stop : Nat) (ml : ML) :
-    mlRun stop t (ml, false) = Spec.overlayRun stop t (ml, false) := mlRun_eq_overlay stop t ml hg
+theorem mlocals_current_partial (t : Body) (hg : mlGuard t = true) (args : List Name) (stop : Nat) (ml : ML) :
+    Generated.Names.mlocalsUpdateMinusArgs = false ∧
+    mlRun args stop t (ml, false) = Spec.overlayRun stop t (ml, false) := ⟨by decide, mlRun_eq_overlay args stop t ml hg⟩
 
 example : mlGuard (.code 1 ["x".toList] [] (.block 2 none "b".toList [] [] (.leaf 3 [] [] .nil)
     (.code 4 ["x".toList] [] (.leaf 5 [] [] .nil)))) = true := by decide
 
+/-- a `<%page>` argument reassigned by the body: `<%page args="x"/><% x = 1 %>${top()}<% x = 2 %>${top()}` – the
+overlay carries the value of the latest assignment, not the value the argument had at entry -/
+example : (mlRun ["x".toList] 3 (.page 1 ["x".toList] [] (.code 2 ["x".toList] [] (.leaf 3 [] [] (.code 4 ["x".toList] []
+    (.leaf 5 [] [] .nil))))) (mlInit ["x".toList], false)).1 = [("x".toList, MLVal.assigned 2)] ∧
+  (mlRun ["x".toList] 5 (.page 1 ["x".toList] [] (.code 2 ["x".toList] [] (.leaf 3 [] [] (.code 4 ["x".toList] []
+    (.leaf 5 [] [] .nil))))) (mlInit ["x".toList], false)).1 = [("x".toList, MLVal.assigned 4)] := by decide
+
 /-- F-C04-5: `<%block><% x = 5 %></%block>${top()}` – the block's local assignment is written into `__M_locals` -/
 theorem mlocals_current_counterexample :
     let t : Body := .block 1 none "b".toList [] [] (.code 2 ["x".toList] [] .nil) (.leaf 3 [] ["top".toList] .nil)
-    mlGuard t = false ∧ (mlRun 3 t ([], false)).1 = [("x".toList, MLVal.assigned 2)] ∧
+    mlGuard t = false ∧ (mlRun [] 3 t ([], false)).1 = [("x".toList, MLVal.assigned 2)] ∧
       (Spec.overlayRun 3 t ([], false)).1 = [] := by decide
 
 /-- the data a def called with `context._locals(__M_locals)` sees: the overlay wins over the render-time data -/
